@@ -282,6 +282,59 @@ def run_o2(case):
             else:
                 cnt["o2_timeouts_observed"] += 1
             await api.close_pool()
+            # queued, then bounced: the request first waits 2.7 s in the queue (pool full with another origin's
+            # connection), is then handed a "maybe HTTP/2" connection together with another request, is bounced when that
+            # turns out to be HTTP/1.1 (at 3.5) and queued again behind a response that stays open. Its pool timeout is
+            # 5 s: it has used 2.7 s of it; PoolTimeout is due when it has been queued for 5 s in all (5.8) - or, reading the
+            # timeout as a deadline from arrival, at 5.3 - but not 5 s after the bounce (8.5)
+            net = simnet.Net()
+            net.log_events = False
+            net.latency = lambda kind, idx: 0.5 if kind == "connect" else 0.0
+            endpoints.Origin(net, "o.test", 443, tls=True, alpn=["http/1.1"])
+            endpoints.Origin(net, "p.test", 443, tls=True, alpn=["http/1.1"])
+            pool = mk_pool(flavor, net, max_connections=1, http2=True)
+            api = API(flavor, pool, net)
+            res = {}
+            t_start = net.now()
+
+            async def holder3():
+                resp, cm = await api.open("GET", "https://p.test/h")
+                await anyio.sleep(3.0 - (net.now() - t_start))
+                await api.close(cm)
+
+            async def first3():
+                await anyio.sleep(0.7)
+                resp, cm = await api.open("GET", "https://o.test/first")
+                await anyio.sleep(20.0)
+                await api.close(cm)
+
+            async def waiter3():
+                await anyio.sleep(0.8)
+                try:
+                    await api.request("GET", "https://o.test/w", extensions={"timeout": {"pool": 5.0}})
+                    res["w"] = ("ok", net.now() - t_start)
+                except Exception as exc:  # noqa
+                    res["w"] = (type(exc).__name__, net.now() - t_start)
+
+            async def body3():
+                async with anyio.create_task_group() as tg:
+                    tg.start_soon(holder3)
+                    tg.start_soon(first3)
+                    tg.start_soon(waiter3)
+                return True
+            await guarded(flavor, body3)
+            cnt["o2_histories"] += 1
+            cnt["o2_requeue_histories"] += 1
+            sigs.add(f"o2|{flavor}|queued-then-bounced")
+            kind, t_rel = res.get("w", ("never", -1))
+            if kind != "PoolTimeout" or not (5.8 - 1e-3 <= t_rel <= 6.3 + 1e-3):
+                v("o2-requeued-request-timeout:" + ("late" if kind == "PoolTimeout" and t_rel > 6.3 else "other"),
+                  f"request queued at 0.8 with pool timeout 5.0, handed a connection at 3.0, bounced at 3.5 and queued again: "
+                  f"ended {kind} at {t_rel}; expected PoolTimeout between 5.8 (deadline from arrival) and 6.3 (5 s queued in all)",
+                  {"flavor": flavor})
+            else:
+                cnt["o2_timeouts_observed"] += 1
+            await api.close_pool()
             for name, S, waiters in ORDERINGS[:0]:
                 # P=0 with free capacity succeeds
                 net, pool, api = build()
